@@ -321,6 +321,45 @@ func trimStack(s string) string {
 	return strings.Join(out, " <- ")
 }
 
+// c03manyConnections: one client connects n times in a row, every connection negotiated completely by a server that
+// answers every request correctly (echoing its id). Every one of them has to succeed: whatever the client numbers,
+// counts or remembers from one negotiation to the next (request ids, attempts, features) goes through 9, 10, 15, 16, 17
+// on the way.
+func c03manyConnections(n int, session string, sm bool) func() {
+	return func() {
+		w := vnet.NewWorld()
+		var recs []*negRec
+		var conns []*srvConn
+		listen(w, "example.org:5222", func(k int) *negCfg {
+			return &negCfg{domain: "example.org", starttls: "absent", cert: "valid", mechs: []string{"PLAIN"}, session: session, sm: sm, pick: defaultPick}
+		}, &recs, &conns)
+		cl, _, err := newTestClient(true, true, sm, false, func(error) {}, func(Event) {})
+		if err != nil {
+			vrt.Fail("C03|harness|newclient", "%v", err)
+			return
+		}
+		for i := 1; i <= n; i++ {
+			err := cl.Connect()
+			vrt.WaitIdle()
+			if len(recs) < i {
+				vrt.Fail("C03|harness|no-connection", "connection %d was never dialled", i)
+				return
+			}
+			r := recs[i-1]
+			if err != nil {
+				vrt.Fail("C03|error-despite-success|many-connections", "connection %d of the same client (session=%s sm=%v): the server answered every request correctly (steps %v) and Connect failed: %v", i, session, sm, r.Steps, err)
+				return
+			}
+			if len(r.Order) > 0 {
+				vrt.Fail("C03|order|many-connections", "connection %d of the same client: %v", i, r.Order)
+				return
+			}
+			_ = cl.Disconnect()
+			vrt.WaitIdle()
+		}
+	}
+}
+
 func TestVerifC03(t *testing.T) {
 	var scs []hx.Scenario
 	for _, insecure := range []bool{true, false} {
@@ -363,6 +402,11 @@ func TestVerifC03(t *testing.T) {
 					scs = append(scs, hx.Scenario{Name: sc.name(), Opt: vrt.Options{Bound: 0}, Body: c03body(sc), Verdict: c03verdict})
 				}
 			}
+		}
+	}
+	for _, session := range []string{"absent", "mandatory"} {
+		for _, sm := range []bool{false, true} {
+			scs = append(scs, hx.Scenario{Name: fmt.Sprintf("many-connections/n=40/session=%s/sm=%v", session, sm), Opt: vrt.Options{Bound: 0, Horizon: 400000}, Body: c03manyConnections(40, session, sm), Verdict: c03verdict})
 		}
 	}
 	if hx.Main("C03", scs) == 2 {
